@@ -17,6 +17,9 @@ func main() {
 	if len(os.Args) >= 5 && os.Args[3] == "--replay" {
 		os.Exit(checks.Replay(id, os.Args[4]))
 	}
+	if tier == "race-child" {
+		os.Exit(checks.RunRaceChild(id))
+	}
 	f, ok := checks.Registry[id]
 	if !ok {
 		fmt.Fprintf(os.Stderr, "unknown check %s\n", id)
